@@ -871,6 +871,28 @@ _pin_many("C14", "closeSrcs", [("workbook", "Workbook.__enter__"), ("workbook", 
                                ("implementations", "ODS_Workbook.close"), ("implementations", "ODSUnpacker.close"),
                                ("implementations", "Numbers_Workbook.close"), ("implementations", "NumbersUnpacker.close")])
 
+# ---- C01 / C06 / C10 (layout and navigation), C07 / C08 (entries to schema), C05 (record readers): the functions the models
+# Layout / Odo / Value / Copybook / Schema / Recfm were written from
+_pin_many("C01", "layoutSrc", [("schema_instance", "LocationMaker.__init__"), ("schema_instance", "LocationMaker.from_instance"),
+                               ("schema_instance", "LocationMaker.from_schema"), ("schema_instance", "LocationMaker.walk"),
+                               ("schema_instance", "LocationMaker.size"), ("schema_instance", "LocationMaker.ndnav")])
+_pin_many("C01", "navSrc", [("schema_instance", "NDNav.name"), ("schema_instance", "NDNav.index"), ("schema_instance", "NDNav.value"),
+                            ("schema_instance", "NDNav.raw"), ("schema_instance", "EBCDIC.nav"),
+                            ("schema_instance", "AtomicLocation.value"), ("schema_instance", "AtomicLocation.raw"),
+                            ("schema_instance", "ArrayLocation.value"), ("schema_instance", "ObjectLocation.value"),
+                            ("schema_instance", "OneOfLocation.value"), ("schema_instance", "RefToLocation.value"),
+                            ("schema_instance", "RefToLocation.referent"), ("schema_instance", "RefToLocation.properties")])
+_pin_many("C01", "odoFileSrc", [("workbook", "COBOL_EBCDIC_Sheet.set_schema"), ("workbook", "COBOL_EBCDIC_Sheet.row_iter"),
+                                ("schema_instance", "EBCDIC.instance_iter"), ("schema_instance", "EBCDIC.used")])
+_pin_many("C07", "structureSrc", [("cobol_parser", "structure"), ("cobol_parser", "DDE.__init__"), ("cobol_parser", "schema_iter")])
+_pin_many("C07", "schemaMakerSrc", [("cobol_parser", "JSONSchemaMaker.__init__"), ("cobol_parser", "JSONSchemaMaker.jsonschema"),
+                                    ("cobol_parser", "JSONSchemaMaker.build_json_schema")])
+_pin_many("C05", "recfmSrcs", [("estruct", "RECFM_N.__init__"), ("estruct", "RECFM_N.record_iter"), ("estruct", "RECFM_Reader.used"),
+                               ("estruct", "RECFM_F.record_iter"), ("estruct", "RECFM_F.rdw_iter"),
+                               ("estruct", "RECFM_V.record_iter"), ("estruct", "RECFM_V.rdw_iter"), ("estruct", "RECFM_V._data_iter"),
+                               ("estruct", "RECFM_VB.record_iter"), ("estruct", "RECFM_VB.rdw_iter"), ("estruct", "RECFM_VB.bdw_iter"),
+                               ("estruct", "RECFM_VB._data_iter")])
+
 
 # ------------------------------------------------------------------------------------------
 # driver
